@@ -96,7 +96,8 @@ def injection(world, pos):
     if kind == "missing_delim":
         key = grammar.token(r, " \t" + D + C + '"', 1, 5, first_forbid="[")
         text = grammar.token(r, D + C + '"', 1, 6, first_forbid=" \t", inner_blank=True).rstrip(" \t") or "t"
-        line = key + grammar.blanks(r, 1, 2) + text
+        # "a key followed by text": what separates the two is white space of any kind, not only blank and tab
+        line = key + (grammar.blanks(r, 1, 2) if r.chance(0.8) else r.pick(["\x0c", "\x0b", " \x0c", "\r", "\x0b\t"])) + text
         prev = world["lines"][pos - 1][0] if pos > 0 else None
         if prev in ("entry", "entry_plain", "cont"):
             return line, None, kind      # by the rule of 5.1 this line continues the previous value
